@@ -27,7 +27,7 @@ fn canonicalize_slice(
     };
 
     // Cap slice_length
-    let slice_length = if slice_offset + slice_length > vec_length {
+    let slice_length = if slice_offset.saturating_add(slice_length) > vec_length {
         vec_length - slice_offset
     } else {
         slice_length
